@@ -86,6 +86,8 @@ fn mse(v: &Value) -> Result<MassSideEffect, Unsup> {
 
 fn call_fc(o: &mut FuelConverter, fname: &str, a: &[Value]) -> CallRes {
     match fname {
+        "FuelConverter::save_state" => { o.save_state(); Ok(Ok(Value::Null)) }
+        "FuelConverter::step" => { o.step(); Ok(Ok(Value::Null)) }
         "<FuelConverter as Mass>::set_mass" => unit(o.set_mass(of(&a[0]).map(|x| x * uc::KG), mse(&a[1])?)),
         "FuelConverter::solve_energy_consumption" => unit(o.solve_energy_consumption(f(&a[0]) * uc::W, f(&a[1]) * uc::S, b(&a[2]), b(&a[3]))),
         "FuelConverter::set_cur_pwr_out_max" => unit(o.set_cur_pwr_out_max(f(&a[0]) * uc::S)),
@@ -95,6 +97,8 @@ fn call_fc(o: &mut FuelConverter, fname: &str, a: &[Value]) -> CallRes {
 
 fn call_gen(o: &mut Generator, fname: &str, a: &[Value]) -> CallRes {
     match fname {
+        "Generator::save_state" => { o.save_state(); Ok(Ok(Value::Null)) }
+        "Generator::step" => { o.step(); Ok(Ok(Value::Null)) }
         "<Generator as Mass>::set_mass" => unit(o.set_mass(of(&a[0]).map(|x| x * uc::KG), mse(&a[1])?)),
         "Generator::set_pwr_in_req" => unit(o.set_pwr_in_req(f(&a[0]) * uc::W, f(&a[1]) * uc::W, f(&a[2]) * uc::S)),
         "Generator::set_cur_pwr_max_out" => unit(o.set_cur_pwr_max_out(f(&a[0]) * uc::W, of(&a[1]).map(|x| x * uc::W))),
@@ -104,6 +108,8 @@ fn call_gen(o: &mut Generator, fname: &str, a: &[Value]) -> CallRes {
 
 fn call_edrv(o: &mut ElectricDrivetrain, fname: &str, a: &[Value]) -> CallRes {
     match fname {
+        "ElectricDrivetrain::save_state" => { o.save_state(); Ok(Ok(Value::Null)) }
+        "ElectricDrivetrain::step" => { o.step(); Ok(Ok(Value::Null)) }
         "ElectricDrivetrain::set_pwr_in_req" => unit(o.set_pwr_in_req(f(&a[0]) * uc::W, f(&a[1]) * uc::S)),
         "ElectricDrivetrain::set_cur_pwr_max_out" => unit(o.set_cur_pwr_max_out(f(&a[0]) * uc::W, of(&a[1]).map(|x| x * uc::W))),
         "ElectricDrivetrain::set_cur_pwr_regen_max" => unit(o.set_cur_pwr_regen_max(f(&a[0]) * uc::W)),
@@ -113,6 +119,8 @@ fn call_edrv(o: &mut ElectricDrivetrain, fname: &str, a: &[Value]) -> CallRes {
 
 fn call_res(o: &mut ReversibleEnergyStorage, fname: &str, a: &[Value]) -> CallRes {
     match fname {
+        "ReversibleEnergyStorage::save_state" => { o.save_state(); Ok(Ok(Value::Null)) }
+        "ReversibleEnergyStorage::step" => { o.step(); Ok(Ok(Value::Null)) }
         "<ReversibleEnergyStorage as Mass>::set_mass" => unit(o.set_mass(of(&a[0]).map(|x| x * uc::KG), mse(&a[1])?)),
         "ReversibleEnergyStorage::solve_energy_consumption" => unit(o.solve_energy_consumption(f(&a[0]) * uc::W, f(&a[1]) * uc::W, f(&a[2]) * uc::S)),
         "ReversibleEnergyStorage::set_cur_pwr_out_max" => unit(o.set_cur_pwr_out_max(f(&a[0]) * uc::W, of(&a[1]).map(|x| x * uc::J), of(&a[2]).map(|x| x * uc::J))),
@@ -122,6 +130,9 @@ fn call_res(o: &mut ReversibleEnergyStorage, fname: &str, a: &[Value]) -> CallRe
 
 fn call_loco(o: &mut Locomotive, fname: &str, a: &[Value]) -> CallRes {
     match fname {
+        "<Locomotive as LocoTrait>::save_state" => { LocoTrait::save_state(o); Ok(Ok(Value::Null)) }
+        "<Locomotive as LocoTrait>::step" => { LocoTrait::step(o); Ok(Ok(Value::Null)) }
+        "Locomotive::set_save_interval" => { o.set_save_interval(a[0].as_u64().map(|x| x as usize)); Ok(Ok(Value::Null)) }
         "<Locomotive as Mass>::set_mass" => unit(o.set_mass(of(&a[0]).map(|x| x * uc::KG), mse(&a[1])?)),
         "Locomotive::set_force_max" => {
             let eff = match a[1].as_str().unwrap_or("") {
@@ -152,6 +163,9 @@ fn call_loco(o: &mut Locomotive, fname: &str, a: &[Value]) -> CallRes {
 
 fn call_consist(o: &mut Consist, fname: &str, a: &[Value]) -> CallRes {
     match fname {
+        "<Consist as LocoTrait>::save_state" => { LocoTrait::save_state(o); Ok(Ok(Value::Null)) }
+        "<Consist as LocoTrait>::step" => { LocoTrait::step(o); Ok(Ok(Value::Null)) }
+        "Consist::set_save_interval" => { o.set_save_interval(a[0].as_u64().map(|x| x as usize)); Ok(Ok(Value::Null)) }
         "<Consist as Mass>::mass" => Ok(o.mass().map(|m| json!(m.map(|x| x.get::<si::kilogram>())))),
         "Consist::force_max" => Ok(o.force_max().map(|x| json!(x.get::<si::newton>()))),
         "Consist::set_pwr_aux" => unit(o.set_pwr_aux(ob(&a[0]))),
